@@ -473,8 +473,8 @@ def flat (op : String) (args : List String) : String :=
       "ok " ++ (if out.isEmpty then "-" else ",".intercalate (out.map toString))
     | none, _, _ => "ERR:exception"
     | _, _, _ => "bad-op"
-  | "spec.apply", [lang, sp, us] =>
-    match PV.Gen.flattenLangs.find? (·.1 == lang), natList sp, natList us with
+  | "spec.apply", [lang, sp, us] =>     -- specification side: the tables LISTED for the language (source arrays), not the built ones
+    match PV.Gen.flattenListedLangs.find? (·.1 == lang), natList sp, natList us with
     | some (_, rules), some sp, some us =>
       let out := PV.Spec.Flatten.flatten rules (fun c => sp.contains c) (decode16 us)
       "ok " ++ (if out.isEmpty then "-" else ",".intercalate (out.map toString))
